@@ -129,3 +129,42 @@ func VerifC15_Cache() {
 	zzverif.Assert(vStateIndex(final, states, "C15/own-slice") == W, "C15/own-slice")
 	zzverif.Reach("C15/done")
 }
+
+// VerifC15_Refilter: reads of a filtered subscription's cache concurrent with a
+// Refilter see the complete view of the old filter or of the new one, never a
+// half-applied refilter.
+func VerifC15_Refilter() {
+	e := newFilterEnv(false, symFilter{0}, 8)
+	n := zzverif.NondetInt("parent.n", 1, zzverif.Param("P", 2))
+	for i := 0; i < n; i++ {
+		e.parentChange()
+	}
+	e.parentReady()
+	zzverif.Quiesce()
+	par := vListEnts(e.pcache, "harness/parent-list")
+	seen := make(chan []vEnt, 2)
+	for r := 0; r < zzverif.Param("READERS", 1); r++ {
+		go func() { seen <- vListEnts(e.fs.Cache(), "harness/own-list") }()
+	}
+	e.refilter(symFilter{1})
+	for r := 0; r < zzverif.Param("READERS", 1); r++ {
+		l := <-seen
+		isOld, isNew := true, true
+		cntOld, cntNew := 0, 0
+		for _, p := range par {
+			_, in := vFind(l, p)
+			a0, a1 := (symFilter{0}).Accept(p.obj), (symFilter{1}).Accept(p.obj)
+			isOld = zzverif.And(isOld, zzverif.Iff(in, a0))
+			isNew = zzverif.And(isNew, zzverif.Iff(in, a1))
+			if a0 {
+				cntOld++
+			}
+			if a1 {
+				cntNew++
+			}
+		}
+		zzverif.Assert(zzverif.Or(zzverif.And(isOld, len(l) == cntOld), zzverif.And(isNew, len(l) == cntNew)), "C15/snapshot/refilter-atomic")
+	}
+	zzverif.Quiesce()
+	zzverif.Reach("C15/refilter")
+}
